@@ -19,10 +19,13 @@
                      NTParser.parse / per NQuadsParser instance, notation3.py
                      SinkParser.anonymousNode + _anonymousNodes for Turtle and
                      TriG - one dict for all graph blocks -, rdfxml.py
-                     RDFXMLHandler.bnode made by reset());
+                     RDFXMLHandler.bnode made by reset(), trix.py
+                     TriXHandler.get_bnode + TriXHandler.bnode made by reset() - as
+                     repaired by the "fix:" commit 3d9dc36a, before it the first
+                     sight of a label stored BNode(label));
            Identity  [BNode(label)]: the document's label IS the node id
-                     (hext.py _parse_hextuple, jsonld.py Parser._to_rdf_id,
-                     trix.py TriXHandler.get_bnode on first sight of a label).
+                     (hext.py _parse_hextuple, jsonld.py Parser._to_rdf_id; the
+                     repository's own tests pin this for both parsers).
    The document's default graph goes to the target graph of the call.
 
    The uuid4 supply is the function [fresh : call index -> label -> node id];
@@ -55,7 +58,7 @@ Inductive disc := Fresh | Identity.
 
 (* read off the parsers (see the header); the correspondence check re-establishes it on every run *)
 Definition disc_of (f : fmt) : disc :=
-  match f with TRIX | JLD | HEXT => Identity | _ => Fresh end.
+  match f with JLD | HEXT => Identity | _ => Fresh end.
 (* the parsers that, before commit 57c67bab, emptied <urn:x-rdflib:default> (historical) *)
 Definition wipes (f : fmt) : bool :=
   match f with NQ | HEXT => true | _ => false end.
@@ -219,7 +222,7 @@ Definition wf (c : case) : Prop := wfb c = true.
 
 (* ------------------------------------------------------------------ *)
 (* Known findings: trigger predicate, evaluated along the model's run.
-     1 (F9)   a TriX / JSON-LD / HexTuples call one of whose labels is the id of a
+     1 (F9)   a JSON-LD / HexTuples call (TriX: FIXED by 3d9dc36a) one of whose labels is the id of a
               blank node already in the store
    (trigger 2, F12 - N-Quads / HexTuples emptied <urn:x-rdflib:default> - is FIXED) *)
 Definition kf_step (st : qset) (d : doc) : N :=
